@@ -1,4 +1,5 @@
 import WhatwgUrl.Proofs.SearchParams
+import WhatwgUrl.Generated.Facts
 /-
   C11 — `SearchParams`: the list operations have the standard's semantics, `Sort`/`SortAbsolute` are stable
   sorts by name (by name ++ value), the urlencoded parser conforms to the standard, and serialize-then-parse
@@ -206,5 +207,11 @@ example : PlainPairs [(lit "name", lit "value"), (lit "a/b?c", lit "~!$'()*,;:@[
 example : RtPairs [(lit "a b", lit "c d#\"<>~"), ([], []), ([0x00, 0x7f], lit " ")] := by decide
 example : spString Cfg.default [(lit "a b", lit "c d#\"<>~"), ([], []), ([0x00, 0x7f], lit " ")] =
     lit "a+b=c+d%23%22%3C%3E~&=&%00%7F=+" := by decide
+
+/-! ### facts regenerated from the Go source (T1) -/
+
+/-- `Sort` and `SortAbsolute` use `sort.SliceStable` (the stable sort the model's `sortStable` stands for) and write through -/
+theorem C11_sort_uses_stable : ∀ c ∈ Generated.callees, (c.1 = "SearchParams.Sort" ∨ c.1 = "SearchParams.SortAbsolute") →
+    c.2 = ["sort.SliceStable", "s.update"] := by decide
 
 end WhatwgUrl.Props.C11
